@@ -325,3 +325,217 @@ Proof.
   split; [intros; apply gen_Matrix_insert_row_model; assumption|].
   intros; apply gen_Matrix_insert_column_model; assumption.
 Qed.
+
+(* ======================================================================================
+   Wave 3: `for` loops inside bodies are folds (retain_mut's counting loops and asserts are part
+   of its generated frame now), from_flat_row_major's checked_mul test, and the frames of
+   insert_row_with / insert_column_with, whose result type separates what happens BEFORE and
+   WHILE the values are inserted (outer outcome) from what happens AFTER the loop (inner
+   outcome): a validation moved behind the loop is a different term.
+   ====================================================================================== *)
+
+(* `for i in l { if f(i) { accepted += 1 } }` *)
+Lemma gen_count_fold md (f g : N -> bool) : (forall i, f i = g i) ->
+  forall l acc, acc + nlen l <= usize_max ->
+  gen_fold (fun (a : N) (i : N) => if f i then obind (u_add md a 1) (fun t => let a' := t in Ok a') else Ok a) acc l
+  = Ok (acc + nlen (filter g l)).
+Proof.
+  intros Hfg. induction l as [|x l IH]; intros acc Hb; cbn [gen_fold filter].
+  - unfold nlen. cbn [length]. f_equal. lia.
+  - rewrite <- Hfg. unfold nlen in *. cbn [length] in Hb.
+    destruct (f x); cbn [obind].
+    + unfold u_add. replace (acc + 1 <=? usize_max) with true by (symmetry; apply N.leb_le; lia).
+      cbn [obind]. rewrite IH by lia. cbn [length]. f_equal. lia.
+    + rewrite IH by lia. reflexivity.
+Qed.
+
+Lemma length_nrange n : length (nrange n) = N.to_nat n.
+Proof. unfold nrange. rewrite map_length, seq_length. reflexivity. Qed.
+
+Lemma length_keep_flags keep columns : forall n r c, length (keep_flags keep columns n r c) = n.
+Proof. induction n as [|n IH]; intros; cbn [keep_flags length]; [reflexivity|]. rewrite IH. reflexivity. Qed.
+
+Lemma select_nil_iff {T} : forall (flags : list bool) (data : list T), length flags = length data ->
+  existsb (fun b => b) flags = false <-> select flags data = [].
+Proof.
+  induction flags as [|b flags IH]; intros [|x data] Hl; cbn [select existsb]; try discriminate; try tauto.
+  cbn [length] in Hl. destruct b; cbn [orb].
+  - split; discriminate.
+  - apply IH. lia.
+Qed.
+
+(* retain_mut as a whole: the counting loops, the two asserts BEFORE anything is dropped, the
+   Vec::retain pass, the assert on the emptied storage, the new size *)
+Lemma gen_Matrix_retain_mut_model : forall {T} md (m : matrix T) (s : slice2d),
+  Inv m -> nlen (m_data m) <= usize_max ->
+  match gen_Matrix_retain_mut md (gm_of m) s (length (m_data m)) with
+  | Ok (kept, g) => retain_mut m s = (mkM (select kept (m_data m)) (gm_rows g) (gm_columns g), true)
+  | Panic => snd (retain_mut m s) = false /\
+             (* the two counting asserts fire before anything is dropped *)
+             (count_accepted (s_rows s) (m_rows m) = 0 \/ count_accepted (s_columns s) (m_cols m) = 0 ->
+              retain_mut m s = (m, false))
+  | Err _ => False
+  end.
+Proof.
+  gen_equiv gen_Matrix_retain_mut_model by
+    (intros T md m s [Hr [Hc Hlen]] Hfit;
+     assert (Hcm : m_cols m <= usize_max) by (unfold nlen in *; nia);
+     assert (Hrm : m_rows m <= usize_max) by (unfold nlen in *; nia);
+     unfold gen_Matrix_retain_mut, retain_mut, gm_of, gen_Matrix_rows, gen_Matrix_columns;
+     cbn [obind gm_rows gm_columns]; rewrite !gen_range_nrange;
+     rewrite (gen_count_fold md _ (slice_accepts (s_rows s)))
+       by (try (intros; apply gen_Slice_accepts_eq); unfold nlen; rewrite length_nrange; lia);
+     cbn [obind];
+     rewrite (gen_count_fold md _ (slice_accepts (s_columns s)))
+       by (try (intros; apply gen_Slice_accepts_eq); unfold nlen; rewrite length_nrange; lia);
+     cbn [obind]; rewrite !N.add_0_l; fold (count_accepted (s_rows s) (m_rows m)); fold (count_accepted (s_columns s) (m_cols m));
+     destruct (0 <? count_accepted (s_rows s) (m_rows m)) eqn:E1;
+       [|split; [reflexivity|intros _; reflexivity]];
+     destruct (0 <? count_accepted (s_columns s) (m_cols m)) eqn:E2;
+       [|split; [reflexivity|intros _; reflexivity]];
+     rewrite (gen_retain_flags _ (slice2d_accepts s) (m_cols m))
+       by (try (intros r c Hrr; apply gen_Matrix_retain_mut_retain_eq; lia); unfold nlen in Hfit; lia);
+     cbn [obind]; rewrite retain_rc_select, Bool.negb_involutive;
+     pose proof (select_nil_iff (keep_flags (slice2d_accepts s) (m_cols m) (length (m_data m)) 0 0) (m_data m)
+                                (length_keep_flags _ _ _ _ _)) as Hsel;
+     destruct (existsb (fun b => b) _) eqn:E3;
+       [ cbn [gm_rows gm_columns];
+         destruct (select _ (m_data m)) eqn:E4; [exfalso; destruct Hsel as [_ Hs]; specialize (Hs eq_refl); discriminate|reflexivity]
+       | destruct Hsel as [Hs _]; rewrite (Hs eq_refl); split;
+         [reflexivity|intros [H0|H0]; rewrite H0 in *; discriminate] ]).
+Qed.
+
+(* Matrix::from_flat_row_major: checked_mul(size) == Some(len), then "not empty" *)
+Lemma gen_Matrix_from_flat_row_major_eq : forall {T} md (size : N * N) (values : list T),
+  gen_Matrix_from_flat_row_major md size (nlen values) =
+  match from_flat_row_major size values with Ok m => Ok (gm_of m) | Panic => Panic | Err e => Err e end.
+Proof.
+  gen_equiv gen_Matrix_from_flat_row_major_eq by
+    (intros; unfold gen_Matrix_from_flat_row_major, from_flat_row_major, checked_mul, gen_opt_eqb, gm_of;
+     destruct (fst size * snd size <=? usize_max); cbn [andb]; [|reflexivity];
+     destruct (fst size * snd size =? nlen values); [|reflexivity];
+     destruct values; reflexivity).
+Qed.
+
+Lemma length_gen_range a b : length (gen_range a b) = N.to_nat (b - a).
+Proof. unfold gen_range. rewrite map_length, seq_length. reflexivity. Qed.
+
+Lemma map_fst_combine {A B} : forall (l : list A) (l' : list B), length l = length l' -> map fst (combine l l') = l.
+Proof. induction l as [|a l IH]; intros [|b l'] H; cbn in *; try discriminate; [reflexivity|]. f_equal. apply IH. lia. Qed.
+
+Lemma map_fst_gen_enumerate_range n : map fst (gen_enumerate (gen_range 0 n)) = nrange n.
+Proof.
+  unfold gen_enumerate. rewrite map_fst_combine.
+  - rewrite length_gen_range, N.sub_0_r, N2Nat.id. apply gen_range_nrange.
+  - rewrite !length_gen_range. rewrite N.sub_0_r, Nat2N.id. reflexivity.
+Qed.
+
+Lemma combine_map_seq {T} (g : N -> N) : forall (l : list T) k,
+  combine (map g (map N.of_nat (seq k (length l)))) l =
+  map (fun cv => (g (N.of_nat (fst cv)), snd cv)) (combine (seq k (length l)) l).
+Proof. induction l as [|x l IH]; intros k; cbn [length seq map combine fst snd]; [reflexivity|]. rewrite IH. reflexivity. Qed.
+
+(* insert_row_with: the row assert, `take(columns).collect()`, the length assert - all BEFORE the
+   first insertion - then the insertions in column order, then rows += 1 *)
+Lemma gen_Matrix_insert_row_with_model : forall {T} md (m : matrix T) row (values : list T),
+  Inv m -> (m_rows m + 1) * m_cols m <= usize_max ->
+  match gen_Matrix_insert_row_with md (gm_of m) row (nlen values) with
+  | Ok (ps, after) =>
+      exists g, after = Ok g /\
+      insert_row_with m row values =
+      (let '(d, fine) := insert_each (combine ps (firstn (N.to_nat (m_cols m)) values)) (m_data m) in
+       if fine then (mkM d (gm_rows g) (gm_columns g), true) else (mkM d (m_rows m) (m_cols m), false))
+  | Panic => insert_row_with m row values = (m, false)
+  | Err _ => False
+  end.
+Proof.
+  gen_equiv gen_Matrix_insert_row_with_model by
+    (intros T md m row values [Hr [Hc Hlen]] Hfit;
+     unfold gen_Matrix_insert_row_with, insert_row_with, gen_Matrix_rows, gen_Matrix_columns; unfold gm_of at 1 2 3 4;
+     cbn [obind gm_rows gm_columns];
+     destruct (row <=? m_rows m) eqn:E1; [|reflexivity]; apply N.leb_le in E1;
+     assert (Hn : nlen (firstn (N.to_nat (m_cols m)) values) = N.min (m_cols m) (nlen values))
+       by (unfold nlen; rewrite firstn_length; lia);
+     rewrite Hn;
+     destruct (N.min (m_cols m) (nlen values) =? m_cols m) eqn:E2; [|reflexivity]; apply N.eqb_eq in E2;
+     rewrite map_fst_gen_enumerate_range;
+     rewrite (gen_map_m_ok _ (fun column => get_index m row column))
+       by (intros x Hx; apply in_nrange in Hx; rewrite E2 in Hx; apply (gen_Matrix_insert_positions_eq md m row x); nia);
+     cbn [obind]; unfold gm_of; cbn [gm_rows gm_columns]; ok_add; cbn [obind];
+     eexists; split; [reflexivity|]; cbn [gm_rows gm_columns];
+     assert (Hl : length (firstn (N.to_nat (m_cols m)) values) = N.to_nat (m_cols m))
+       by (unfold nlen in *; lia);
+     replace (nrange (N.min (m_cols m) (nlen values))) with (map N.of_nat (seq 0 (length (firstn (N.to_nat (m_cols m)) values))))
+       by (unfold nrange; rewrite E2, Hl; reflexivity);
+     rewrite (combine_map_seq (fun column => get_index m row column)); reflexivity).
+Qed.
+
+(* insert_column_with: the column assert, collect(), the length assert, truncate - all BEFORE
+   the first insertion - then the insertions for row = rows-1 .. 0 popping the values from the
+   end, then columns += 1 *)
+Lemma gen_Matrix_insert_column_with_model : forall {T} md (m : matrix T) column (values : list T),
+  Inv m -> m_rows m * (m_cols m + 1) <= usize_max ->
+  match gen_Matrix_insert_column_with md (gm_of m) column (nlen values) with
+  | Ok (ps, after) =>
+      exists g, after = Ok g /\
+      insert_column_with m column values =
+      (let '(d, fine) := insert_popping ps (rev (firstn (N.to_nat (m_rows m)) values)) (m_data m) in
+       if fine then (mkM d (gm_rows g) (gm_columns g), true) else (mkM d (m_rows m) (m_cols m), false))
+  | Panic => insert_column_with m column values = (m, false)
+  | Err _ => False
+  end.
+Proof.
+  gen_equiv gen_Matrix_insert_column_with_model by
+    (intros T md m column values [Hr [Hc Hlen]] Hfit;
+     unfold gen_Matrix_insert_column_with, insert_column_with, gen_Matrix_rows, gen_Matrix_columns; unfold gm_of at 1 2 3 4 5;
+     cbn [obind gm_rows gm_columns];
+     destruct (column <=? m_cols m) eqn:E1; [|reflexivity]; apply N.leb_le in E1;
+     destruct (m_rows m <=? nlen values) eqn:E2; [|reflexivity];
+     rewrite gen_range_nrange;
+     rewrite (gen_map_m_ok _ (fun row => get_index m row column))
+       by (intros x Hx; apply in_rev in Hx; apply in_nrange in Hx; apply (gen_Matrix_insert_positions_eq md m x column); nia);
+     cbn [obind]; unfold gm_of; cbn [gm_rows gm_columns]; ok_add; cbn [obind];
+     eexists; split; [reflexivity|]; cbn [gm_rows gm_columns]; reflexivity).
+Qed.
+
+(* ---- wave 3, as stated in Properties/C11.v ---- *)
+Lemma generated_matrix_frames_match_model : forall (T : Type) md (m : matrix T),
+  Inv m ->
+  (nlen (m_data m) <= usize_max -> forall s,
+     match gen_Matrix_retain_mut md (gm_of m) s (length (m_data m)) with
+     | Ok (kept, g) => retain_mut m s = (mkM (select kept (m_data m)) (gm_rows g) (gm_columns g), true)
+     | Panic => snd (retain_mut m s) = false /\
+                (count_accepted (s_rows s) (m_rows m) = 0 \/ count_accepted (s_columns s) (m_cols m) = 0 ->
+                 retain_mut m s = (m, false))
+     | Err _ => False
+     end) /\
+  (forall (size : N * N) (values : list T),
+     gen_Matrix_from_flat_row_major md size (nlen values) =
+     match from_flat_row_major size values with Ok m => Ok (gm_of m) | Panic => Panic | Err e => Err e end) /\
+  (forall row (values : list T), (m_rows m + 1) * m_cols m <= usize_max ->
+     match gen_Matrix_insert_row_with md (gm_of m) row (nlen values) with
+     | Ok (ps, after) =>
+         exists g, after = Ok g /\
+         insert_row_with m row values =
+         (let '(d, fine) := insert_each (combine ps (firstn (N.to_nat (m_cols m)) values)) (m_data m) in
+          if fine then (mkM d (gm_rows g) (gm_columns g), true) else (mkM d (m_rows m) (m_cols m), false))
+     | Panic => insert_row_with m row values = (m, false)
+     | Err _ => False
+     end) /\
+  (forall column (values : list T), m_rows m * (m_cols m + 1) <= usize_max ->
+     match gen_Matrix_insert_column_with md (gm_of m) column (nlen values) with
+     | Ok (ps, after) =>
+         exists g, after = Ok g /\
+         insert_column_with m column values =
+         (let '(d, fine) := insert_popping ps (rev (firstn (N.to_nat (m_rows m)) values)) (m_data m) in
+          if fine then (mkM d (gm_rows g) (gm_columns g), true) else (mkM d (m_rows m) (m_cols m), false))
+     | Panic => insert_column_with m column values = (m, false)
+     | Err _ => False
+     end).
+Proof.
+  intros T md m HI.
+  split; [intros; apply gen_Matrix_retain_mut_model; assumption|].
+  split; [intros; apply gen_Matrix_from_flat_row_major_eq|].
+  split; [intros; apply gen_Matrix_insert_row_with_model; assumption|].
+  intros; apply gen_Matrix_insert_column_with_model; assumption.
+Qed.
